@@ -30,7 +30,7 @@ func c02trie() *MerklePatriciaTrie {
 }
 
 func TestGocvWitnessC02(t *testing.T) {
-	paths := []string{"3456", "3457", "9", "a34567", "a34568", "a9", "b0", "12", "1234", "1256"}
+	paths := []string{"3456", "3457", "9", "a34567", "a34568", "a9", "b0", "12", "1234", "1256", "1", "1abc", "2def"}
 	type op struct {
 		del  bool
 		path string
